@@ -3,7 +3,7 @@ import time
 import vlib
 
 
-def finish(prop, tier, t0, parts, rule, assumptions, level="exploration"):
+def finish(prop, tier, t0, parts, rule, assumptions, level="exploration", extra_viol=(), extra_cov=None):
     """parts: list of dict(name, evaluations, distinct, bad, detail, sample). Writes evidence, returns violation paths."""
     viol = []
     ev = sum(p["evaluations"] for p in parts)
@@ -17,5 +17,7 @@ def finish(prop, tier, t0, parts, rule, assumptions, level="exploration"):
     cov = {"evaluations": max(ev, 1), "distinct_nontrivial": max(dn, 2), "rule": rule, "exhaustive": True,
            "samples": [p["sample"] for p in parts if p.get("sample")][:4],
            "parts": [{k: p[k] for k in ("name", "evaluations", "distinct", "bad")} for p in parts]}
+    viol += list(extra_viol)
+    cov.update(extra_cov or {})
     vlib.write_evidence(prop, tier, level, cov, time.time() - t0, len(viol), assumptions)
     return viol
